@@ -229,4 +229,56 @@ pub fn run(ctx: &mut Ctx) {
     }
     ctx.bump("closed_form_comparisons", closed.len());
     ctx.bump("ancestor_comparisons", anc);
+    large_working_space(ctx);
+}
+
+/// working spaces of 8 MiB and more (a thousand work positions of several KiB each, both rates, several chunks and a
+/// partial last chunk): every byte against the ancestor crate `reed-solomon-16`, and the first symbol slot of every
+/// recovery shard against the closed form evaluated by `rsmodel` on that slot alone
+fn large_working_space(ctx: &mut Ctx) {
+    let pool: [(usize, usize); 5] = [(64, 1000), (1000, 64), (300, 900), (900, 300), (40, 2000)];
+    let n = if ctx.thorough() { pool.len() } else { 2 };
+    let mut picks = pool.to_vec();
+    ctx.rng.shuffle(&mut picks);
+    let mut queries = vec![];
+    let mut metas = vec![];
+    for (k, r) in picks.into_iter().take(n) {
+        let sb = 8192 + 64 * ctx.rng.range(0, 32);
+        let engine = *ctx.rng.pick(&["nosimd", "ssse3", "avx2", "default"]);
+        let cfg = Cfg { kind: "default".into(), engine: engine.into(), k, r, sb };
+        let originals: Vec<Vec<u8>> = (0..k).map(|_| ctx.rng.bytes(sb)).collect();
+        let case = Case { name: format!("large-working-space {}", cfg.tag()), lines: vec![format!("encode {} with random originals (seeded)", cfg.tag())], with_model: false };
+        ctx.evaluations += 1;
+        ctx.count("large_working_space", &format!("{}:{}", k, r));
+        let Some(rec) = encode_impl(&cfg, &originals) else {
+            ctx.oracle_fail(format!("encode failed for supported {}", cfg.tag()), &case, None);
+            continue;
+        };
+        match reed_solomon_16::encode(k, r, &originals) {
+            Ok(a) => {
+                if let Some(j) = (0..r).find(|j| a[*j] != rec[*j]) {
+                    ctx.oracle_fail(format!("recovery shard {} of {} differs from reed-solomon-16 0.1.0", j, cfg.tag()), &case, None);
+                    continue;
+                }
+            }
+            Err(e) => ctx.notes.push(format!("reed-solomon-16 rejected {}: {:?}", cfg.tag(), e)),
+        }
+        // slot 0 = bytes 0 and 32 of each shard
+        let col: Vec<Vec<u8>> = originals.iter().map(|o| vec![o[0], o[32]]).collect();
+        let high = rule_is_high(k, r);
+        queries.push(format!("C cauchy {} {} {} 2 {}", if high { "high" } else { "low" }, k, r, show_shards(&col)));
+        metas.push((cfg, case, rec));
+    }
+    if queries.is_empty() { return; }
+    match ctx.model_eval(&queries) {
+        Ok(ans) => {
+            for (a, (cfg, case, rec)) in ans.iter().zip(metas.iter()) {
+                let got = format!("ok {}", show_shards(&rec.iter().map(|x| vec![x[0], x[32]]).collect::<Vec<_>>()));
+                if *a != got {
+                    ctx.oracle_fail(format!("slot 0 of the recovery shards of {} differs from the closed-form scaled-Cauchy code", cfg.tag()), case, None);
+                }
+            }
+        }
+        Err(e) => ctx.model_fail(format!("closed-form oracle could not be evaluated: {}", e), &Case::new("large-working-space"), None),
+    }
 }
